@@ -225,6 +225,15 @@ func aggsigdbProbe(pc *probe, impl string, k signedKind, ver eth2spec.DataVersio
 			}()
 			db.Run(ctx)
 		}()
+		// a value under another key, stored up front: the sentinel query of the blocked-readers phase
+		sentinelDuty, pkS := core.Duty{Slot: duty.Slot + 1, Type: core.DutySignature}, pubkey(pc.seed+2)
+		if err := db.Store(ctx, sentinelDuty, core.SignedDataSet{pkS: make(core.Signature, 96)}); err != nil {
+			pc.inconclusive("sentinel store: %v", err)
+			cancel()
+			<-done
+
+			return storeOps{}
+		}
 
 		return storeOps{
 			store: func(ctx context.Context, in any) error {
@@ -233,8 +242,10 @@ func aggsigdbProbe(pc *probe, impl string, k signedKind, ver eth2spec.DataVersio
 			},
 			read:   func(ctx context.Context) (any, error) { return db.Await(ctx, duty, pkA, subcomm) },
 			expect: sd,
-			// lost wake-ups of waiting readers are property C17's subject: here every reader reads after a store
-			noWaiters: true,
+			sentinel: func(ctx context.Context) error {
+				_, err := db.Await(ctx, sentinelDuty, pkS, 0)
+				return err
+			},
 			close: func() {
 				cancel()
 				select {
